@@ -112,8 +112,14 @@ func c08Headers(c *Ctx, r *gen.R) error {
 			scs[i] = &c08hSchema{idx: i, kind: "header_zoo", req: gen.InteropHeaderZoo()}
 			continue
 		}
-		q, _ := gen.SplitPathQuery(gen.GenRuntimeFile(r.Fork(fmt.Sprint("c08h-", i)), i, gen.RuntimeOpts{Headers: true}))
-		scs[i] = &c08hSchema{idx: i, kind: "runtime_headers", req: q}
+		q := gen.GenRuntimeFile(r.Fork(fmt.Sprint("c08h-", i)), i, gen.RuntimeOpts{Headers: true})
+		kind := "runtime_headers"
+		if i%2 == 0 {
+			// the split shapes (no GET/DELETE route with both path variables and query parameters) stay covered
+			q, _ = gen.SplitPathQuery(q)
+			kind = "runtime_headers_split"
+		}
+		scs[i] = &c08hSchema{idx: i, kind: kind, req: q}
 	}
 	bt, items, err := buildBatch(n, func(i int) *ir.Request { return scs[i].req }, scratch.AddOpts{GoHTTP: true}, false)
 	if err != nil {
@@ -277,7 +283,7 @@ func c08Headers(c *Ctx, r *gen.R) error {
 		if sc.serverOK {
 			all = append(all, sc.cases...)
 		} else if sc.serverTS != "" && sc.x.it.Built {
-			res.Violation("ts_load:server", fmt.Sprintf("[%s #%d] a schema without path+query GET routes does not load: %s", sc.kind, sc.idx, clip(canon(sc.load), 300)), map[string]any{"schema": sc.req})
+			res.Violation("ts_load:server", fmt.Sprintf("[%s #%d] an accepted schema does not load: %s", sc.kind, sc.idx, clip(canon(sc.load), 300)), map[string]any{"schema": sc.req})
 		}
 	}
 	driver := drv.Available()
